@@ -1,14 +1,163 @@
 /-
-Props/C01.lean — C01: address text round-trips; strict parsing equals the standard grammar.
+Props/C01.lean — C01: address text round-trips; strict parsing equals the standard grammar;
+all of it unchanged under netaddr's pure-Python fallback.
+
+Property (properties.jsonl): every IPv4/IPv6 value prints (default form and each IPv6 dialect)
+to text that parses back - with or without an explicit version, in default or strict mode - to
+the same value and version; strict mode accepts exactly the standard strings; a rejected
+address string raises AddrFormatError; unchanged when `netaddr.fbsocket` replaces the platform
+functions.
+
+The theorems are about `NV.AddrParse.ipAddress` / `intToStr` / `intToStr6` (Model/AddrParse.lean),
+i.e. `IPAddress.__init__` for strings and `strategy.ipv4/ipv6.int_to_str`, over the modelled
+platform functions (Model/Text4, Text6) and the model of `netaddr/fbsocket.py` (Model/FbSocket).
+Helper lemmas live in Lemmas/C01L*.lean.
 -/
-import NetaddrVerif.Model.AddrParse
+import NetaddrVerif.Lemmas.C01LText6
 namespace NV.C01
-open NV NV.AddrParse
+open NV NV.Text4 NV.AddrParse NV.C01L
+
+theorem not_mem_of_contains_false {s : List Char} {c : Char} (h : s.contains c = false) : c ∉ s := by
+  intro hm
+  have := List.contains_iff_mem.mpr hm
+  rw [h] at this; cases this
+
+/-- **IPv4 round trip.**  `str(IPAddress(v, 4))` parses back to `(4, v)` with version `None` or
+    `4`, under every flag combination of INET_PTON / ZEROFILL, on both back ends. -/
+theorem roundtrip4 (be : Backend) (v : Nat) (hv : v < 2 ^ 32) (ver : Option Nat)
+    (hver : ver = none ∨ ver = some 4) (fl : Nat) (hfl : fl < 4) :
+    ipAddress be (intToStr be 4 v) ver fl = .ok ⟨4, v⟩ := by
+  have hs := slash_not_in_ntoa v hv
+  have hp := strToInt4_ntoa be v hv fl hfl
+  have hs' := not_mem_of_contains_false hs
+  rcases hver with h | h <;> subst h <;> simp [ipAddress, intToStr, hs', hp, strToInt]
+
+example : ipAddress .fallback (intToStr .fallback 4 0xC0000201) none ZEROFILL = .ok ⟨4, 0xC0000201⟩ :=
+  roundtrip4 _ _ (by decide) _ (Or.inl rfl) _ (by decide)
+
+/-- **IPv6 round trip.**  `IPAddress(v, 6).format(dialect)` for each of the three dialects parses
+    back to `(6, v)` with version `None` or `6`, under every flags value, on both back ends. -/
+theorem roundtrip6 (be : Backend) (d : Dialect) (v : Nat) (hv : v < 2 ^ 128) (ver : Option Nat)
+    (hver : ver = none ∨ ver = some 6) (fl : Nat) :
+    ipAddress be (intToStr6 be d v) ver fl = .ok ⟨6, v⟩ := by
+  have hs := text6_noslash be d v hv
+  have hp := text6_parse be d v hv
+  obtain ⟨pre, r, he, hpre⟩ := text6_shape be d v hv
+  have h4 := strToInt4_colon be pre r hpre fl
+  rw [← he] at h4
+  have hs' := not_mem_of_contains_false hs
+  rcases hver with h | h <;> subst h <;> simp [ipAddress, hs', hp, h4, strToInt, strToInt6]
+
+example : ipAddress .platform (intToStr6 .platform .compact 0xffff01020304) none 0 = .ok ⟨6, 0xffff01020304⟩ :=
+  roundtrip6 _ _ _ (by decide) _ (Or.inl rfl) _
+
+theorem pton6_no_colon (s : List Char) (h : ':' ∉ s) : Text6.pton6 s = none := by
+  have e : s.splitOn ':' = [s] := by
+    have := List.splitOn_intercalate (ls := [s]) ':' (by intro l hl; simp at hl; subst hl; exact h) (by simp)
+    simpa [List.intercalate] using this
+  unfold Text6.pton6
+  simp [e]
+
+/-- **No cross-family reading.**  A printed IPv4 text is never read as IPv6 and a printed IPv6
+    text (any dialect) is never read as IPv4: with an explicit wrong version the constructor
+    raises AddrFormatError, and (by `roundtrip4` / `roundtrip6`) without a version the printed
+    family is the detected one. -/
+theorem no_cross_family (be : Backend) (fl : Nat) :
+    (∀ v, v < 2 ^ 32 → ipAddress be (intToStr be 4 v) (some 6) fl = .error .addrFormat) ∧
+    (∀ d v, v < 2 ^ 128 → ipAddress be (intToStr6 be d v) (some 4) fl = .error .addrFormat) := by
+  constructor
+  · intro v hv
+    have hs := slash_not_in_ntoa v hv
+    have h6 : inetPton6 be (ntoa v) = none := by
+      rw [inetPton6_eq]; exact pton6_no_colon _ (colon_not_in_ntoa v hv)
+    have hs' := not_mem_of_contains_false hs
+    simp [ipAddress, intToStr, hs', strToInt, strToInt6, h6]
+  · intro d v hv
+    have hs := text6_noslash be d v hv
+    obtain ⟨pre, r, he, hpre⟩ := text6_shape be d v hv
+    have h4 := strToInt4_colon be pre r hpre fl
+    rw [← he] at h4
+    have hs' := not_mem_of_contains_false hs
+    simp [ipAddress, hs', strToInt, h4]
+
+/-- **Fallback = platform, parsing (IPv6).**  The model of `fbsocket.inet_pton(AF_INET6, ·)`
+    (written line by line from fbsocket.py: head/tail blank handling with indices, `count`,
+    the indexed token loop) and the platform model accept the same strings with the same values. -/
+theorem fallback_eq_platform_parse (s : List Char) : FbSocket.pton6 s = Text6.pton6 s := fb_pton6_eq s
+
+/-- **Fallback = platform, parsing (IPv4 strict).** -/
+theorem fallback_eq_platform_parse4 (s : List Char) : FbSocket.pton4 s = Text4.pton4 s := fb_pton4_eq s
+
+/-- **Fallback = platform, printing.**  `fbsocket.inet_ntop` (`_compact_ipv6_tokens` with its
+    positions list, sort and scan; integer test for the dotted-quad tail) prints exactly the
+    platform model's text for every 128-bit value; `inet_ntoa` likewise for 32-bit values. -/
+theorem fallback_eq_platform_print (v : Nat) (hv : v < 2 ^ 128) : FbSocket.ntop6 v = Text6.ntop6 v :=
+  fb_ntop6_eq v hv
+
+theorem fallback_eq_platform_print4 (v : Nat) (hv : v < 2 ^ 32) : FbSocket.ntoa v = Text4.ntoa v := fb_ntoa_eq v hv
+
+example : FbSocket.ntop6 0xffff01020304 = "::ffff:1.2.3.4".toList := by decide
+
+/-- **The back end is unobservable**: for every string, version and flags `IPAddress(...)`
+    gives the same result (value or error class) under both back ends, and every value prints
+    the same in every dialect. -/
+theorem backend_irrelevant :
+    (∀ s ver fl, ipAddress .fallback s ver fl = ipAddress .platform s ver fl) ∧
+    (∀ d v, v < 2 ^ 128 → intToStr6 .fallback d v = intToStr6 .platform d v) ∧
+    (∀ s fl, validStr4 .fallback s fl = validStr4 .platform s fl) ∧
+    (∀ s, validStr6 .fallback s = validStr6 .platform s) := by
+  have e4 : ∀ s fl, strToInt4 .fallback s fl = strToInt4 .platform s fl := by
+    intro s fl; simp [strToInt4, inetPton4, fb_pton4_eq]
+  have e6 : ∀ s fl, strToInt6 .fallback s fl = strToInt6 .platform s fl := by
+    intro s fl; simp [strToInt6, inetPton6, fb_pton6_eq]
+  refine ⟨?_, ?_, ?_, ?_⟩
+  · intro s ver fl
+    simp [ipAddress, strToInt, e4, e6]
+  · intro d v hv
+    cases d with
+    | compact => exact fb_ntop6_eq v hv
+    | full => rfl
+    | verbose => rfl
+  · intro s fl; simp [validStr4, e4]
+  · intro s; simp [validStr6, inetPton6, fb_pton6_eq]
 
 /-- a string containing '/' is refused with ValueError whatever the (valid) version and flags -/
 theorem slash_refused (be : Backend) (s : List Char) (flags : Nat) (h : s.contains '/' = true) :
     ipAddress be s none flags = .error .value ∧ ipAddress be s (some 4) flags = .error .value
       ∧ ipAddress be s (some 6) flags = .error .value := by
   refine ⟨?_, ?_, ?_⟩ <;> simp only [ipAddress, h] <;> simp
+
+/-- **Rejected ⇒ AddrFormatError.**  With a valid version argument, a string without '/' that
+    does not yield an address raises AddrFormatError (never another class, never an address of
+    the other kind); ValueError is raised exactly for '/' or an invalid version. -/
+theorem reject_is_addrformat (be : Backend) (s : List Char) (ver : Option Nat) (fl : Nat) (e : Err)
+    (hver : ver = none ∨ ver = some 4 ∨ ver = some 6) (hs : s.contains '/' = false)
+    (h : ipAddress be s ver fl = .error e) : e = .addrFormat := by
+  rcases hver with hv | hv | hv <;> subst hv <;> unfold ipAddress at h <;>
+    simp only [hs, Bool.false_eq_true, if_false] at h
+  · cases h4 : strToInt4 be s fl with
+    | ok v => rw [h4] at h; cases h
+    | error e4 =>
+      rw [h4] at h
+      cases h6 : strToInt6 be s fl with
+      | ok v => rw [h6] at h; cases h
+      | error e6 => rw [h6] at h; cases h; rfl
+  · have hv4 : ¬ ((4 : Nat) ≠ 4 ∧ (4 : Nat) ≠ 6) := by decide
+    simp only [hv4, if_false] at h
+    cases h4 : strToInt be 4 s fl with
+    | ok v => rw [h4] at h; cases h
+    | error e4 => rw [h4] at h; cases h; rfl
+  · have hv6 : ¬ ((6 : Nat) ≠ 4 ∧ (6 : Nat) ≠ 6) := by decide
+    simp only [hv6, if_false] at h
+    cases h6 : strToInt be 6 s fl with
+    | ok v => rw [h6] at h; cases h
+    | error e6 => rw [h6] at h; cases h; rfl
+
+example : (match ipAddress .platform "1.2.3.4.5".toList none 0 with | .error .addrFormat => true | _ => false) = true := by
+  decide
+
+theorem invalid_version_refused (be : Backend) (s : List Char) (ver fl : Nat) (h : ver ≠ 4 ∧ ver ≠ 6) :
+    ipAddress be s (some ver) fl = .error .value := by
+  simp [ipAddress, h]
 
 end NV.C01
